@@ -1,8 +1,8 @@
 """C15 — app-pointer tokens are non-zero, bounded, unique and resolve to their pointer."""
 import itertools
 PROP = "C15"
-COQ_FILES = ["Machine.v", "AppPtr.v", "AppPtr_proofs.v", "AppPtr_owner_proofs.v"]
-DRIVERS = [dict(name="appptr", src="appptr.cpp", ops=["amap", "aown"])]
+COQ_FILES = ["Machine.v", "AppPtr.v", "AppPtr_proofs.v", "AppPtr_owner_proofs.v", "AppPtr2.v"]
+DRIVERS = [dict(name="appptr", src="appptr.cpp", ops=["amap", "aown", "aown2"])]
 
 
 def gen_cases(tier, rng):
@@ -99,6 +99,18 @@ def gen_cases(tier, rng):
             o = rng.choice(oalpha)
             out.append(o[:-1] + str(4096 * (i + 1)) if o.endswith(":P") else o)
         cases.append("aown " + " ".join(out))
+    # owner layer over TWO live sandboxes (each table issues from 1: owners of different sandboxes hold EQUAL tokens):
+    # exhaustive histories, then random ones
+    o2 = ["g:0:0:P", "g:1:1:P", "g:0:1:P", "g:2:0:P", "m:0:1", "m:1:0", "m:0:2", "m:1:1", "d:0", "d:1", "u:0", "u:1", "l:0", "l:1", "t:0:1", "t:1:1", "t:0:2", "t:1:2"]
+    od2 = 4 if tier == "quick" else 5
+    for d in range(2, od2 + 1):
+        for ops in itertools.product(o2, repeat=d):
+            if sum(1 for o in ops if o.startswith("g")) < 2 or not any(o.startswith("m") for o in ops):
+                continue
+            cases.append("aown2 " + " ".join(o[:-1] + str(4096 * (i + 1)) if o.endswith(":P") else o for i, o in enumerate(ops)))
+    for _ in range(300 if tier == "quick" else 4000):
+        n = rng.randrange(5, 40)
+        cases.append("aown2 " + " ".join(o[:-1] + str(4096 * (i + 1)) if o.endswith(":P") else o for i, o in enumerate(rng.choice(o2) for _ in range(n))))
     return cases
 
 
